@@ -77,3 +77,17 @@ package mvs
 //@   loop 0 assume !isQueueArray(baseOf(required))
 //@   loop 0 invariant -1 <= rangeindex && rangeindex < len(required) && forall k int :: 0 <= k && k <= rangeindex ==> inDom(work.added, required[k]) && work.added[required[k]]
 //@   assigns heap
+
+// (P) C14: a new graph selects, for every root, a version at least as high as the
+// root's, and only versions of roots (or "none" for paths no root mentions)
+//@ func NewGraph
+//@   strings abstract
+//@   may_panic
+//@   callsite dynamic#0 contract graphCmp
+//@   loop 0 invariant -1 <= rangeindex && rangeindex < len(roots) && g != nil && g.selected != nil && g.isRoot != nil && g.required != nil
+//@   loop 0 invariant forall j int :: 0 <= j && j <= rangeindex ==> vcmp(sel(g, g.v.Path(roots[j])), g.v.Version(roots[j])) >= 0
+//@   loop 0 invariant forall p string :: sel(g, p) == "none" || exists j int :: 0 <= j && j <= rangeindex && g.v.Path(roots[j]) == p && sel(g, p) == g.v.Version(roots[j])
+//@   ensures [wf] result != nil && result.selected != nil && result.isRoot != nil && result.required != nil
+//@   ensures [sufficient] forall j int :: 0 <= j && j < len(roots) ==> vcmp(sel(result, result.v.Path(roots[j])), result.v.Version(roots[j])) >= 0
+//@   ensures [minimal] forall p string :: sel(result, p) == "none" || exists j int :: 0 <= j && j < len(roots) && result.v.Path(roots[j]) == p && sel(result, p) == result.v.Version(roots[j])
+//@   assigns heap
